@@ -15,6 +15,7 @@ import IgrisModel.C17.LenLemmas
 import IgrisModel.C17.R3Lemmas
 import IgrisModel.C17.R3Witness
 import IgrisModel.C17.Gf2Lemmas
+import IgrisModel.C17.PolyAlg
 namespace Igris.C17
 open Igris.Proto
 
@@ -619,6 +620,128 @@ theorem gf2_check_values :
     crcPoly g7_09 (List.replicate 7 false) (m9.flatMap bitsMsbFirst) = toBits 0x75#7 ∧
     crcPoly g8_31 (List.replicate 8 true) (m9.flatMap bitsMsbFirst) = toBits 0xF7#8 ∧
     crcPoly g32_04C11DB7 (List.replicate 32 true) (m9.flatMap bitsMsbFirst) = toBits 0x0376E6E7#32 := by
+  decide +kernel
+
+/-! ## Extension round 3b
+
+The GF(2) definition no longer rests on the long-division ALGORITHM `polyMod`: `PolyAlg.lean` defines addition and
+multiplication of coefficient lists from scratch and `IsCrcRemainder p init msg r` :=  `r` has `w` coefficients and
+`∃ q, M·X^w + init·X^|M| = q·(X^w + p) + r` coefficient by coefficient.  Existence (the long division returns such an
+`r`), uniqueness (Euclid: a non-zero multiple of a monic polynomial of degree `w` has degree ≥ `w`) and hence
+"the routine's value is THE remainder" are theorems. -/
+
+/-- the multiplication the specification uses IS the product of polynomials: coefficient `i` of `p·q` is the
+convolution `Σ_{j ≤ i} p_j·q_{i-j}` over GF(2) (`xorSum f n = f 0 + … + f (n-1)`), and the addition is coefficient-wise -/
+theorem gf2_mul_is_convolution (p q : List Bool) (i : Nat) :
+    coeff (pmul p q) i = xorSum (fun j => coeff p j && coeff q (i - j)) (i + 1) ∧
+      coeff (padd p q) i = (coeff p i != coeff q i) :=
+  ⟨coeff_pmul_conv p q i, coeff_padd p q i⟩
+
+/-- (1 + X)·(1 + X) = 1 + X² over GF(2) -/
+example : pmul [true, true] [true, true] = [true, false, true] := by decide
+
+/-- existence: `polyMod G a` is a remainder in the algebraic sense (`a = q·G + r`) with `min |a| w` coefficients -/
+theorem polyMod_is_remainder (p a : List Bool) :
+    (∃ q, ∀ i, hcoeff a i = (coeff (pmul q (true :: p).reverse) i != hcoeff (polyMod (true :: p) a) i)) ∧
+      (polyMod (true :: p) a).length = min a.length p.length :=
+  ⟨polyMod_spec p a, polyMod_length p a⟩
+
+/-- uniqueness of the remainder of a division by a monic polynomial of degree `w`, for arbitrary quotients -/
+theorem gf2_remainder_unique (g : List Bool) (w : Nat) (hg : Monic g w) (q q' r r' : List Bool)
+    (hr : DegLt r w) (hr' : DegLt r' w)
+    (h : ∀ i, coeff (padd (pmul q g) r) i = coeff (padd (pmul q' g) r') i) : ∀ i, coeff r i = coeff r' i :=
+  rem_unique g w hg q q' r r' hr hr' h
+
+example : Monic (true :: [false, false, true]).reverse 3 := monic_gen _
+
+/-- characterisation of the algorithm by the algebra: exactly the lists of the right length that are a remainder -/
+theorem polyMod_iff_remainder (p a r : List Bool) :
+    r = polyMod (true :: p) a ↔
+      (r.length = min a.length p.length ∧
+        ∃ q, ∀ i, hcoeff a i = (coeff (pmul q (true :: p).reverse) i != hcoeff r i)) :=
+  ⟨fun h => h ▸ ⟨polyMod_length p a, polyMod_spec p a⟩, fun ⟨hl, h⟩ => polyMod_unique p a r hl h⟩
+
+/-- `crcPoly` (used by every `*_eq_gf2` theorem) is THE `r` with `M·X^w + init·X^|M| = q·G + r`, `deg r < w` -/
+theorem crcPoly_is_the_remainder (p init msg r : List Bool) (hi : init.length = p.length) :
+    IsCrcRemainder p init msg r ↔ r = crcPoly (true :: p) init msg :=
+  (crcPoly_iff_algebraic p init msg r hi).symm
+
+theorem crcRemainder_unique (p init msg r r' : List Bool) (hi : init.length = p.length)
+    (h : IsCrcRemainder p init msg r) (h' : IsCrcRemainder p init msg r') : r = r' := by
+  rw [(crcPoly_iff_algebraic p init msg r hi).mpr h, (crcPoly_iff_algebraic p init msg r' hi).mpr h']
+
+/-- every routine against the algebraic definition (no algorithm on the right-hand side) -/
+theorem strmcrc8_algebraic (seed : BitVec 8) (data : List Byte) (r : List Bool) :
+    IsCrcRemainder g8_31.tail (toBits seed) (data.flatMap bitsMsbFirst) r ↔ r = toBits (strmcrc8 seed data) := by
+  rw [strmcrc8_eq_gf2]
+  exact (crcPoly_iff_algebraic g8_31.tail _ _ r (by simp [toBits_length, g8_31])).symm
+
+theorem crc8_algebraic (data : List Byte) (seed : BitVec 8) (r : List Bool) :
+    IsCrcRemainder g8_31.tail (toBitsRev seed) (data.flatMap bitsLsbFirst) r ↔
+      (r = toBitsRev (crc8 data seed) ∧ r = toBitsRev (crc8Table data seed)) := by
+  rw [crc8Table_eq_gf2, crc8_eq_gf2, and_self]
+  exact (crcPoly_iff_algebraic g8_31.tail _ _ r (by simp [toBitsRev_length, g8_31])).symm
+
+theorem crc16_algebraic (data : List Byte) (seed : BitVec 16) (r : List Bool) :
+    IsCrcRemainder g16_1021.tail (toBits seed) (data.flatMap bitsMsbFirst) r ↔ r = toBits (crc16 data seed) := by
+  rw [crc16_eq_gf2]
+  exact (crcPoly_iff_algebraic g16_1021.tail _ _ r (by simp [toBits_length, g16_1021])).symm
+
+theorem mmcCrc7_algebraic (data : List Byte) :
+    ∃ v : BitVec 7, mmcCrc7 data = v.zeroExtend 8 ∧
+      ∀ r, IsCrcRemainder g7_09.tail (List.replicate 7 false) (data.flatMap bitsMsbFirst) r ↔ r = toBits v := by
+  obtain ⟨v, hv, hg⟩ := mmcCrc7_eq_gf2 data
+  refine ⟨v, hv, fun r => ?_⟩
+  rw [hg]
+  exact (crcPoly_iff_algebraic g7_09.tail _ _ r (by simp [g7_09])).symm
+
+theorem crc32_algebraic (data : List Byte) (seed : BitVec 32) (r : List Bool) :
+    IsCrcRemainder g32_04C11DB7.tail (toBits seed) ((crc32BitOrder data).flatMap bitsMsbFirst) r ↔
+      (crc32 data data.length seed).map toBits = some r := by
+  rw [crc32_eq_gf2, Option.some.injEq, eq_comm]
+  exact (crcPoly_iff_algebraic g32_04C11DB7.tail _ _ r (by simp [toBits_length, g32_04C11DB7])).symm
+
+/-- how a register is read as a polynomial in `IsCrcRemainder … (toBits v)`: the coefficient of `X^i` is bit `i` of `v`
+(MSB-first CRCs), -/
+theorem hcoeff_toBits {w : Nat} (x : BitVec w) (i : Nat) : hcoeff (toBits x) i = x.getLsbD i := by
+  unfold hcoeff coeff toBits
+  by_cases h : i < w
+  · rw [List.getD_eq_getElem?_getD, List.getElem?_reverse (by simpa using h)]
+    have h2 : w - 1 - i < w := by omega
+    have : w - 1 - (w - 1 - i) = i := by omega
+    simp [BitVec.getMsbD, h2, this]
+  · rw [List.getD_eq_getElem?_getD, List.getElem?_eq_none (by simp; omega)]
+    simp
+    exact BitVec.getLsbD_of_ge x i (by omega)
+
+/-- … and for the reflected Dallas CRC-8 (`toBitsRev`) the coefficient of `X^i` is bit `w-1-i` (bit 0 holds `X^(w-1)`) -/
+theorem hcoeff_toBitsRev {w : Nat} (x : BitVec w) (i : Nat) : hcoeff (toBitsRev x) i = x.getMsbD i := by
+  unfold hcoeff coeff toBitsRev
+  by_cases h : i < w
+  · rw [List.getD_eq_getElem?_getD, List.getElem?_reverse (by simpa using h)]
+    have h2 : w - 1 - i < w := by omega
+    simp [BitVec.getMsbD, h, h2]
+  · rw [List.getD_eq_getElem?_getD, List.getElem?_eq_none (by simp; omega)]
+    simp [BitVec.getMsbD]
+    omega
+
+/-- the residue clause in algebraic form: a frame (message followed by its own streaming CRC-8) is a MULTIPLE of the
+generator - `F(X)·X^8 + init(X)·X^|F| = q(X)·(X^8+X^5+X^4+1)`, remainder zero -/
+theorem strm_frame_is_multiple (seed : BitVec 8) (m : List Byte) :
+    IsCrcRemainder g8_31.tail (toBits seed) ((m ++ [strmcrc8 seed m]).flatMap bitsMsbFirst) (List.replicate 8 false) := by
+  rw [strmcrc8_algebraic, strmcrc8_residue]
+  decide
+
+/-- non-vacuity: the catalogue value 0x75 of CRC-7/MMC is a remainder in the algebraic sense -/
+example : IsCrcRemainder g7_09.tail (List.replicate 7 false)
+    (([0x31, 0x32, 0x33, 0x34, 0x35, 0x36, 0x37, 0x38, 0x39] : List Byte).flatMap bitsMsbFirst) (toBits 0x75#7) :=
+  (crcPoly_iff_algebraic g7_09.tail _ _ _ (by simp [g7_09])).mp gf2_check_values.2.2.1.symm
+
+/-- the op `tbl8` reads the 2x16 table out of the compiled routine behaviourally: row `i` of the low half is
+`igris_crc8_table` of the one-byte message `i` from seed 0, row `i` of the high half of the byte `16·i` -/
+theorem tbl8_readout :
+    (List.range 16).map (fun i => crc8Table [BitVec.ofNat 8 i] 0) ++
+      (List.range 16).map (fun i => crc8Table [BitVec.ofNat 8 (16 * i)] 0) = dscrcTable := by
   decide +kernel
 
 end Igris.C17
